@@ -150,6 +150,9 @@ def prop(line, impl, model):
         elif g != "0":
             return "no liveness verdict from the driver: " + impl[:80]
     elif op == "ahead":
+        ei, em = impl.split(" ")[1:2], model.split(" ")[1:2]
+        if em and em[0].startswith("E:") and ei != em and ei and not ei[0].startswith("E:"):
+            return "the decoder's Reads did not return the error %s the document calls for (they ended with `%s`)" % (em[0], ei[0])
         mi, mm = re.search(r" c=(\d+)$", impl), re.search(r" c=(\d+)$", model)
         if mi and mm and int(mi.group(1)) > int(mm.group(1)) + 2 * LIMIT:
             return ("decoder read %s bytes of the source before blocking; a demand-driven decoder needs %s "
@@ -176,6 +179,9 @@ def key_of(line, impl, model):
         if ok:
             return leak_key(main)
     if a[1] in ("ahead", "aheadg"):
+        ei, em = impl.split(" ")[1:2], model.split(" ")[1:2]
+        if a[1] == "ahead" and em and em[0].startswith("E:") and ei != em:
+            return "error-not-returned-promptly"
         return "unbounded-buffering"
     k = STATE.get("kind", {}).get(line)
     return k or a[1]
@@ -605,6 +611,17 @@ def gen_adversarial(ctx, add):
     long_doc = STATE["bs"] + b"<pre>\n0" + base64.b64encode(p) + b"\n</pre>\n" + b"<p>filler</p>\n" * 40000 + b"<pre>QUJD</pre>" + STATE["be"]
     add("ahead 2048 16 1 %s" % doc_tokens(long_doc), "read-ahead-long")
     add("ahead 1000 4096 0 %s" % doc_tokens(long_doc), "read-ahead-long")
+    # a base64 error EARLY in a long document: the Read that meets the bad word returns the error once the producer
+    # has reached its next Write (the next word), it does not wait for - or read - the rest of the document. The bad
+    # word is followed by another word of the same element, so the producer is parked right behind it and the model's
+    # consumption is exact; the tail holds further elements (a decoder that drains the pipe instead of closing it
+    # walks through all of them)
+    for bad, nreads in ((b"0QUJD QU*D QUJD", 4), (b"0QU*D QUJD", 2), (b"0QUJD QUJD Q=JD QUJD", 5), (b"0QUJDQUJ* QUJD", 3)):
+        tail = (b"<p>filler</p>\n" * 400 + b"<pre>QUJD QUJD</pre>\n") * 60
+        doc = STATE["bs"] + b"<pre>\n" + bad + b"\n</pre>\n" + tail + STATE["be"]
+        for sp_, rb in (("1000,3,50", "16"), ("2048", "4096"), ("7", "3")):
+            add("ahead %s %s %d %s" % (sp_, rb, nreads, doc_tokens(doc)), "error-before-long-tail")
+        add("dec 2048 4096 %s" % doc_tokens(doc), "error-before-long-tail")
     # ... also from a source that returns as much as each Read asks for (what the model says a byte-wise source
     # would have delivered is given to the driver as the yardstick)
     for rb, k in (("16", 1), ("4096", 0)):
@@ -671,13 +688,34 @@ def run(ctx):
     for fill in (0, 1):
         lazy.append(("lazy %d 0 %s" % (fill, doc_tokens(good[:first_pre_end])), "first=data consumed=small"))
         lazy.append(("lazy %d 0 %s" % (fill, doc_tokens(STATE["bs"] + b"<pre>\n0QUJD\n</pre>")), "first=data consumed=small"))
+    # the same with a BAD base64 word in the complete first element: the error must be returned after a bounded part
+    # of the endless (fill 0, 1) or stalled (fill 2) remainder, whether the bad word is followed by another word of
+    # its element (producer parked behind it) or ends it (producer on its way through the filler), at once or after data
+    S = STATE["bs"]
+    for docb, fills in ((S + b"<pre>\n0QUJD QU*D QUJD\n</pre>", (0, 1, 2)), (S + b"<pre>\n0QU*D\n</pre>", (0, 2)),
+                        (S + b"<pre>\n0QUJD QUJD QUJD QUJD QUJD QUJD QUJD Q-JD QUJD QUJD\n</pre>", (1,)),
+                        (b"<pre>0QUJD QUJD=\n</pre>", (0,))):
+        for fill in fills:
+            lazy.append(("lazyerr %d 64 %s" % (fill, doc_tokens(docb)), "end=error:b64 consumed=small"))
+    # ... and the other error exits in front of a remainder that never ends: unknown version (NewArmorDecoder itself
+    # must return), nested and stray pre after data
+    for docb, want, fills in ((S + b"<pre>\n1QUJD QUJD\n</pre>", "end=error:version consumed=small", (0, 2)),
+                              (S + b"<pre>\n0QUJD QUJD\n<pre>QUJD", "end=error:err consumed=small", (1, 2)),
+                              (S + b"<pre>\n0QUJD\n</pre></pre>", "end=error:err consumed=small", (0,))):
+        for fill in fills:
+            lazy.append(("lazyerr %d 64 %s" % (fill, doc_tokens(docb)), want))
     llines = [AREA + " " + l for l, _ in lazy]
-    rc, out, err = vlib.run_impl(exe, llines, timeout=300)
+    rc, out, err = vlib.run_impl(exe, llines, timeout=400)
     for (l, want), line, o in zip(lazy, llines, out + ["!died"] * (len(llines) - len(out))):
         ctx.count(line[:300], kind="endless-document")
         if o != want:
-            ctx.violation("unbounded-buffering", "decoder fed an endless document: expected '%s', got '%s' (input consumed before the first output)" % (want, o),
-                          dict(label="amp-armor-lazy", case=line[:3000], impl=o))
+            if l.startswith("lazyerr") and ("end=none" in o or o in ("!hang", "!died")):
+                ctx.violation("error-not-returned-promptly", "decoder fed a document with an error in its first element and a remainder that "
+                              "never ends: expected '%s', got '%s' (the call that met the error did not return it)" % (want, o),
+                              dict(label="amp-armor-lazy", case=line[:3000], impl=o))
+            else:
+                ctx.violation("unbounded-buffering", "decoder fed an endless document: expected '%s', got '%s' (input consumed before the first output)" % (want, o),
+                              dict(label="amp-armor-lazy", case=line[:3000], impl=o))
 
 
 def replay(ctx, doc):
